@@ -416,13 +416,6 @@ class World:
         self.funcs = []                  # (python function item, token)
         self.func_src = []               # (source expression, signature ASTs) of the same items
         self.func_skipped = 0
-        # which F18p trigger applies: the commits of branch fix-c18-5 make the parser read `array(element()?)`;
-        # with them only `Ty.parserGap2` is left of the finding (flags fp2 / fpp2), without them `Ty.parserGap`
-        try:
-            self.P.parse('$v instance of array(element()?)')
-            self.gap_flags = ('fp2', 'fpp2')
-        except Exception:
-            self.gap_flags = ('fp', 'fpp')
         self.ctx_items = [n for n, t in self.nodes if t.split(' ')[1] == 'e'][:3] + [self.root1]
 
     def parser(self, x, c=0):
@@ -880,22 +873,19 @@ def judge_cases(run: Run, W: World, cases, label='judgement'):
                 ('function parameter', ip, a['param'], 'function-parameter', '_InlineFunction.__call__.get_argument', pspec)):
             if got is None:
                 continue
-            if op == 'function parameter' and got == 'E:XPST0003' and (a[W.gap_flags[1]] == '1' or ty[0] == 'F'):
+            if op == 'function parameter' and got == 'E:XPST0003' and (a['fpp'] == '1' or ty[0] == 'F'):
                 # the declaration `function($g as T)` itself is rejected by the parser (F18p family): nothing is judged
-                # (INTERIM: with branch fix-c18-5 in the reference tree use a['fpp2'] here)
                 st.count('param:declaration-rejected')
                 continue
-            # INTERIM: a['fp'] is the F18p region of the tree without branch fix-c18-5, a['fp2'] what is left of it with
-            # the branch; when the branch is in the reference tree replace a['fp'] by a['fp2'] and drop the flag `fp`
             if sp_ is None and got == 'E:XPST0051' and has_typed_func(ty):
                 # a list-type / non-atomic name inside a typed function test is a STATIC error of the parser
                 # (XPST0051 while the function test is read), whatever the value: not a judgement
                 st.count('static-XPST0051-in-function-test')
                 continue
-            if a[W.gap_flags[0]] == '1':
+            if a['fp'] == '1':
                 # the parser rejects / corrupts this legal type (finding F18p): the model of the evaluation
                 # is not claimed here; a wrong answer is the finding, a right one is fine
-                st.count('parser-gap-type' + (':left-with-fix-c18-5' if a['fp2'] == '1' else ''))
+                st.count('parser-gap-type')
                 if sp_ is not None and got != sp_:
                     run.disagree(Disagreement(dict(case, op=op), got, None, sp_, what=what,
                                               site='xpath31 parser: sequence type', tags=itags + ['F18p']))
@@ -989,22 +979,11 @@ def restr_cases(run: Run, pairs, what='restriction'):
         st.count('restriction:' + im)
         if a['flat'] == '1':
             st.count('restriction-flat')
-            if im == '1' and a['restr'] == '0' and f18u(t1, t2):
-                # INTERIM (until branch fix-c18-5 is in the reference tree): the model describes the repaired check
-                # (a candidate that is no function test is rejected); the wrong `True` is finding F18u, reported by
-                # the laws of the real relation with a concrete unsound / non-transitive witness
-                st.count('interim:F18u-pair(skipped)')
-            elif im != a['restr']:
+            if im != a['restr']:
                 run.disagree(Disagreement({'st1': s1, 'st2': s2, 'op': 'is_sequence_type_restriction'}, im, a['restr'],
                                           what='restriction', site='sequence_types.is_sequence_type_restriction'))
         else:
             st.count('restriction-nonflat(model not claimed)')
-
-
-def f18u(t_super, t_cand) -> bool:
-    """trigger of F18u (repaired on branch fix-c18-5): the super-type is a typed function test and the candidate is
-    no function test but its text contains ') as ' (an array / map test over a typed function test)"""
-    return t_super[0] == 'F' and t_cand[0] in ('A', 'M') and has_typed_func(t_cand)
 
 
 def laws_of_real_relation(run: Run, W: World, types, values, tag_check=True):
@@ -1039,7 +1018,7 @@ def laws_of_real_relation(run: Run, W: World, types, values, tag_check=True):
                         run.disagree(Disagreement({'law': 'transitive', 'st1': texts[i], 'st2': texts[j], 'st3': texts[k]},
                                                   'R(1,2) R(2,3) not R(1,3)', None, 'holds', what='law-transitive',
                                                   site='sequence_types.is_sequence_type_restriction',
-                                                  tags=['F18u'] if f18u(types[i], types[j]) or f18u(types[j], types[k]) else []))
+                                                  tags=[]))
     # soundness
     mt = {}
     for vi, (pv, vt) in enumerate(values):
@@ -1063,7 +1042,7 @@ def laws_of_real_relation(run: Run, W: World, types, values, tag_check=True):
                                 {'law': 'sound', 'super': texts[i], 'candidate': texts[j], 'value': vt},
                                 f'restriction=True match(v,candidate)=True match(v,super)={mt[vi, i]}', None, 'holds',
                                 what='law-sound', site='sequence_types.is_sequence_type_restriction',
-                                tags=['F18u'] if f18u(types[i], types[j]) else []))
+                                tags=[]))
                         sound_viol += 1
 
 
@@ -1522,6 +1501,83 @@ def describe_cop(op, is_map) -> str:
     return f'item{op[2]} {kind} {render(op[3])}'
 
 
+
+# =============================================================================== error codes of the judgements
+OPERAND_CODES = ['XPDY0050', 'XPTY0004', 'FORG0001', 'FOAR0001']
+
+
+def error_propagation(run: Run, W: World):
+    """operand expressions whose value is only known at evaluation time and that may RAISE — a failing `treat as`
+    (XPDY0050), a function call with a wrong argument (XPTY0004), a failing cast (FORG0001), a division by zero
+    (FOAR0001), also lazily in the middle of a sequence (for-binding) — under every judgement form and every kind of
+    sequence type.  Specification: the operand's error propagates unchanged; `instance of` itself raises no dynamic
+    error; `treat as` raises XPDY0050 (model: instanceOfOp / treatAsOp, theorems operand_error_propagates,
+    instance_of_raises_only_static, treat_as_raises_XPDY0050_or_static)."""
+    L = live()
+    st = run.stats
+    ix = L.atom_names.index
+    cls = lambda c: L.val_cls.index(c)   # noqa: E731
+    a = lambda n, o='1': ('L', ('a', ix(n)), o)   # noqa: E731
+    # (operand expression over $v, python value of $v, outcome: ('err', code) or ('val', value tokens))
+    operands = [
+        ('($v treat as xs:string)', 5, ('err', 'XPDY0050')),
+        ('($v treat as xs:string)', 'abc', ('val', f'1 a {cls(str)}')),
+        ('($v treat as xs:integer+)', [1, 2], ('val', f'2 a {cls(int)} a {cls(int)}')),
+        ('($v treat as element())', 5, ('err', 'XPDY0050')),
+        ('($v treat as xs:integer)', [1, 2], ('err', 'XPDY0050')),
+        ('(($v treat as item()+) treat as xs:decimal)', 'x', ('err', 'XPDY0050')),
+        ('function($x as xs:integer) as xs:integer { $x }($v)', 'abc', ('err', 'XPTY0004')),
+        ('function($x as xs:integer) as xs:integer { $x }($v)', 5, ('val', f'1 a {cls(int)}')),
+        ('abs($v)', 'abc', ('err', 'XPTY0004')),
+        ('xs:integer($v)', 'abc', ('err', 'FORG0001')),
+        ('xs:integer($v)', '12', ('val', f'1 a {cls(int)}')),
+        ('($v cast as xs:double)', 'abc', ('err', 'FORG0001')),
+        ('(1 idiv $v)', 0, ('err', 'FOAR0001')),
+        ('(for $x in $v return ($x treat as xs:integer))', [1, 'a'], ('err', 'XPDY0050')),
+        ('(for $x in $v return ($x treat as xs:integer))', [1, 2], ('val', f'2 a {cls(int)} a {cls(int)}')),
+        ('(for $x in $v return xs:integer($x))', ['1', 'zz'], ('err', 'FORG0001')),
+        ('($v ! (. treat as xs:string))', ['a', 3], ('err', 'XPDY0050')),
+        ('$v', [], ('val', '0')),
+    ]
+    types = [a('xs:integer'), a('xs:integer', '*'), a('xs:integer', '+'), a('xs:string', '?'), a('xs:anyAtomicType', '+'),
+             a('xs:double', '*'), ('L', ('num',), '?'), ('L', ('item',), '*'), ('L', ('item',), '1'), ('L', ('node',), '*'),
+             ('L', ('K', 'e', '-'), '?'), ('L', ('K', 'a', '*'), '*'), ('L', ('fany',), '?'), ('L', ('many',), '*'),
+             ('L', ('aany',), '?'), ('A', a('xs:integer', '*'), '?'), ('M', ix('xs:string'), ('L', ('item',), '*'), '*'),
+             ('F', [a('xs:integer')], a('xs:integer')), ('E',), ('L', ('D', 1), '?')]
+    cases = [(e, v, out, ty) for (e, v, out) in operands for ty in types]
+    lines = []
+    for e, v, out, ty in cases:
+        o = f'err {OPERAND_CODES.index(out[1])}' if out[0] == 'err' else out[1]
+        lines.append(f'E|0|{o}|{tok(ty)}')
+    answers = run.driver('C18', lines)
+    for (e, v, out, ty), line, ans in zip(cases, lines, answers):
+        if not ans.startswith('inst='):
+            run.disagree(Disagreement(line, 'driver:' + ans, what='protocol'))
+            continue
+        m = fields(ans)
+        text = render(ty, Spacer(run.rng, 0.3))
+        for op, key in (('instance of', 'inst'), ('treat as', 'treat')):
+            expr = f'{e} {op} {text}'
+            try:
+                tk = W.P.parse(expr)
+                r = tk.evaluate(W.XPathContext(W.root1, variables={'v': v}))
+                got = ('T' if r is True else 'F' if r is False else f'?{r!r}') if op == 'instance of' else 'T'
+            except Exception as ex:
+                got = err_text(ex)
+            want = m[key]
+            if want.startswith('O:'):
+                want = 'E:' + OPERAND_CODES[int(want[2:])]
+            elif want == 'E:XPDY0050' or (op == 'treat as' and want == 'F'):
+                want = 'E:XPDY0050'
+            st.case({'e': expr}, nontrivial=True)
+            st.count('error-propagation:' + ('operand-raises' if out[0] == 'err' else 'operand-value') + ':' + op)
+            st.count('error-code:' + (got if got.startswith('E:') else 'no-error'))
+            if got != want:
+                # the model's answer is the specification here (errors of the operand propagate unchanged)
+                run.disagree(Disagreement({'expression': expr, 'v': repr(v)}, got, want, want, what='error-code',
+                                          site='_xpath2_operators.evaluate__instance_expression / evaluate__treat_expression'))
+
+
 # =============================================================================== signatures (exploration)
 def signatures(run: Run, W: World):
     """every registered signature: parse it into the AST, generate arguments from the declared parameter types
@@ -1755,7 +1811,6 @@ def correspond(run: Run):
     W, G = build_world(run)
     rng = run.rng
     run.stats.extra['value_classes_without_sample'] = W.no_sample
-    run.stats.extra['parser_gap_trigger'] = 'Ty.parserGap2 (tree with fix-c18-5)' if W.gap_flags[0] == 'fp2' else 'Ty.parserGap'
     run.stats.extra['function_items'] = {'built': len(W.funcs), 'skipped_outside_AST': W.func_skipped}
     # --- restriction: corpus, then random pairs (flat ones are compared with the model)
     pairs = list(corpus_types()['restr'])
@@ -1800,6 +1855,7 @@ def correspond(run: Run):
     laws_of_real_relation(run, W, types, values)
     histories(run, W, G)
     container_histories(run, W)
+    error_propagation(run, W)
     signatures(run, W)
     run.stats.rule = ('judgement = (sequence type AST rendered with random spacing, value of length 0..3 built from '
                       'atomic values of every value class with a sample, nodes of every kind from two documents, '
@@ -2097,7 +2153,7 @@ def body(run: Run) -> int:
                         'element / attribute / PI names without namespaces; no schema (type annotations xs:untyped / xs:untypedAtomic)',
                         'documents with exactly one element child',
                         'typed function tests whose argument types contain a typed function or map test are outside the model (string splitting), explored on the real code only']
-    run.prove(['EPV.Props.C18', 'EPV.Props.C18Tables'], ['EPV.Spec.XPathTypes', 'EPV.Gen.C18Tables', 'EPV.Lemmas.SeqTypeSpec', 'EPV.Lemmas.SeqTypeHist', 'EPV.Lemmas.SeqTypeText'])
+    run.prove(['EPV.Props.C18', 'EPV.Props.C18Tables'], ['EPV.Spec.XPathTypes', 'EPV.Gen.C18Tables', 'EPV.Lemmas.SeqTypeSpec', 'EPV.Lemmas.SeqTypeHist', 'EPV.Lemmas.SeqTypeText', 'EPV.Lemmas.SeqTypeErr'])
     try:
         correspond(run)
     except DriverError as e:
